@@ -24,6 +24,9 @@ type Term struct {
 	// (field projections look into the callee, see Terms.field)
 	src *ssa.Call
 	fr  *Frame
+	// literal: a struct term assembled from a composite literal (every field not listed
+	// holds its zero value)
+	literal bool
 }
 
 func (t *Term) String() string      { return t.render(true) }
@@ -94,6 +97,14 @@ type Frame struct {
 	Via     *Frame
 	ViaSite ssa.Instruction
 	Depth   int
+	// Assume: this activation was reached through a dispatch table (m[key](…) with m a
+	// package-level map literal): in it, key == the constant the callee is stored under
+	Assume *assumption
+}
+
+type assumption struct {
+	key ssa.Value // the lookup key, a value of the calling function
+	val string    // exact constant string of the table key
 }
 
 func (fr *Frame) String() string {
@@ -282,14 +293,48 @@ func (ts *Terms) compute(v ssa.Value, fr *Frame, depth int) *Term {
 		}
 		return mk("index", "slice", ts.of(x.X, fr, depth+1), ts.of(x.Low, fr, depth+1), ts.of(x.High, fr, depth+1))
 	case *ssa.FieldAddr:
-		return ts.field(ts.of(x.X, fr, depth+1), fieldNameShort(x.X.Type(), x.Field))
+		return zeroIfUnset(ts.field(ts.of(x.X, fr, depth+1), fieldNameShort(x.X.Type(), x.Field)), fieldTypeOf(x.X.Type(), x.Field))
 	case *ssa.Field:
-		return ts.field(ts.of(x.X, fr, depth+1), fieldNameShort(x.X.Type(), x.Field))
+		return zeroIfUnset(ts.field(ts.of(x.X, fr, depth+1), fieldNameShort(x.X.Type(), x.Field)), fieldTypeOf(x.X.Type(), x.Field))
 	case *ssa.IndexAddr:
 		return mk("index", "", ts.of(x.X, fr, depth+1), ts.of(x.Index, fr, depth+1))
 	case *ssa.Index:
 		return mk("index", "", ts.of(x.X, fr, depth+1), ts.of(x.Index, fr, depth+1))
 	case *ssa.Lookup:
+		// a lookup in a constant table (a package-level map literal nothing writes to)
+		// yields one of its values, or the zero value for a missing key
+		if ld, ok := x.X.(*ssa.UnOp); ok && ld.Op == token.MUL && !x.CommaOk {
+			if g, ok := ld.X.(*ssa.Global); ok {
+				if ents, ok := ts.cx.constTable(g); ok {
+					m := map[string]*Term{}
+					all := true
+					for _, e := range ents {
+						c, isC := e.v.(*ssa.Const)
+						if !isC || c.Value == nil {
+							all = false
+							break
+						}
+						t := ts.of(c, fr, depth+1)
+						m[t.String()] = t
+					}
+					if bt, isB := x.Type().Underlying().(*types.Basic); all && isB {
+						var z *Term
+						switch {
+						case bt.Info()&types.IsInteger != 0:
+							z = mk("const", "0")
+						case bt.Info()&types.IsBoolean != 0:
+							z = mk("const", "false")
+						case bt.Info()&types.IsString != 0:
+							z = mk("const", `""`)
+						}
+						if z != nil {
+							m[z.String()] = z
+							return phiOf(m)
+						}
+					}
+				}
+			}
+		}
 		return mk("index", "", ts.of(x.X, fr, depth+1), ts.of(x.Index, fr, depth+1))
 	case *ssa.Extract:
 		if c, ok := x.Tuple.(*ssa.Call); ok {
@@ -466,7 +511,7 @@ func (ts *Terms) load(addr ssa.Value, fr *Frame, depth int) *Term {
 		if base, ok := a.X.(*ssa.Alloc); ok {
 			return ts.loadAlloc(base, a, fr, depth)
 		}
-		return ts.field(ts.loadBase(a.X, fr, depth+1), fieldNameShort(a.X.Type(), a.Field))
+		return zeroIfUnset(ts.field(ts.loadBase(a.X, fr, depth+1), fieldNameShort(a.X.Type(), a.Field)), fieldTypeOf(a.X.Type(), a.Field))
 	case *ssa.FreeVar:
 		// captured variable: the binding is the address in the creator frame
 		if fr != nil && fr.MC != nil {
@@ -551,13 +596,13 @@ func (ts *Terms) loadAlloc(a *ssa.Alloc, fld *ssa.FieldAddr, fr *Frame, depth in
 			}
 			wm := map[string]*Term{}
 			for _, w := range whole {
-				t := ts.field(w, name)
+				t := zeroIfUnset(ts.field(w, name), fieldTypeOf(fld.X.Type(), fld.Field))
 				wm[t.String()] = t
 			}
 			return phiOf(wm)
 		}
 		for _, w := range whole {
-			t := ts.field(w, name)
+			t := zeroIfUnset(ts.field(w, name), fieldTypeOf(fld.X.Type(), fld.Field))
 			m[t.String()] = t
 		}
 		return phiOf(m)
@@ -588,6 +633,19 @@ func (ts *Terms) loadAlloc(a *ssa.Alloc, fld *ssa.FieldAddr, fr *Frame, depth in
 				t.Args = append(t.Args, mk("const", n), phiOf(fields[n]))
 			}
 			t.Site = a.Pos()
+			// a zero-initialised local filled only by field stores: the other fields are zero
+			t.literal = true
+			for _, r := range *a.Referrers() {
+				switch y := r.(type) {
+				case *ssa.FieldAddr, *ssa.DebugRef:
+				case *ssa.UnOp:
+					if y.Op != token.MUL {
+						t.literal = false
+					}
+				default:
+					t.literal = false // the address escapes (a call may fill the rest)
+				}
+			}
 			return t
 		}
 		// out-parameter of a call (Unmarshal(bz, &x))
@@ -1156,4 +1214,38 @@ func framePath(fr *Frame) string {
 		}
 	}
 	return strings.Join(parts, "<")
+}
+
+// fieldTypeOf: type of field i of the struct (or pointer to struct) type t.
+func fieldTypeOf(t types.Type, i int) types.Type {
+	if p, ok := t.Underlying().(*types.Pointer); ok {
+		t = p.Elem()
+	}
+	st, ok := t.Underlying().(*types.Struct)
+	if !ok || i >= st.NumFields() {
+		return nil
+	}
+	return st.Field(i).Type()
+}
+
+// zeroIfUnset: a field that a composite literal does not mention holds its zero
+// value (poolChange{amount: a}.destroy is false). Only for literals whose fields are
+// all known (an in-place struct term), and only for basic field types.
+func zeroIfUnset(t *Term, ft types.Type) *Term {
+	if t == nil || ft == nil || t.Op != "field" || len(t.Args) != 1 || t.Args[0].Op != "struct" || !t.Args[0].literal {
+		return t
+	}
+	b, ok := ft.Underlying().(*types.Basic)
+	if !ok {
+		return t
+	}
+	switch {
+	case b.Info()&types.IsBoolean != 0:
+		return mk("const", "false")
+	case b.Info()&types.IsInteger != 0:
+		return mk("const", "0")
+	case b.Info()&types.IsString != 0:
+		return mk("const", `""`)
+	}
+	return t
 }
